@@ -6,7 +6,7 @@
 struct x_a {}; struct x_g {}; struct x_ag {}; static int g_xact = 0;
 struct XAct { template<class E,class F,class S,class T> void operator()(E const&,F&,S&,T&){ ++g_xact; } };
 struct XTrue { template<class E,class F,class S,class T> bool operator()(E const&,F&,S&,T&){ return true; } };
-struct na {}; struct nb {}; struct leave {}; struct resume {}; struct plain {}; struct resume_x {}; struct plain_x {};
+struct na {}; struct nb {}; struct leave {}; struct resume {}; struct resume_d : resume {};   /* derived from a history event, NOT itself in the list */ struct plain {}; struct resume_x {}; struct plain_x {};
 enum { H_NO, H_ALWAYS, H_SHALLOW };
 template<int H> struct Sub_ : state_machine_def<Sub_<H>> {
   struct A1 : state<> {}; struct A2 : state<> {}; struct A3 : state<>, explicit_entry<0> {};
@@ -31,7 +31,7 @@ template<int H> struct Top_ : state_machine_def<Top_<H>> {
   struct Out : state<> {};
   typedef Sub initial_state;
   struct transition_table : mpl::vector<
-    Row<Sub,leave,Out,none,none>, Row<Out,resume,Sub,none,none>, Row<Out,plain,Sub,none,none>,
+    Row<Sub,leave,Out,none,none>, Row<Out,resume,Sub,none,none>, Row<Out,plain,Sub,none,none>, Row<Out,resume_d,Sub,none,none>,
     Row<Out,resume_x,typename Sub::template direct<typename Sub_<H>::A3>,none,none>,
     Row<Out,plain_x,typename Sub::template direct<typename Sub_<H>::A3>,none,none> > {};
   template<class F,class Ev> void no_transition(Ev const&,F&,int){}
@@ -40,8 +40,8 @@ template<int H> void run(const char* hn) {
   typedef BE<Top_<H>> Top; typedef typename Top_<H>::Sub Sub;
   // script: moves inside Sub (a = toggle region A, b = toggle region B), L = leave, then one of the four re-entries
   const char* scripts[] = {"L", "aL", "bL", "abL", "bLRbL", "bLPL", "abLRaL", "bLRbbL"};
-  const char* entries[] = {"resume", "plain", "resume_x", "plain_x"};
-  for (const char* sc : scripts) for (int en = 0; en < 4; ++en) {
+  const char* entries[] = {"resume", "plain", "resume_x", "plain_x", "resume_d-derived-from-a-history-event-but-not-listed"};
+  for (const char* sc : scripts) for (int en = 0; en < 5; ++en) {
     Top m; m.start(); Sub& s = m.template get_state<Sub&>();
     int initA = cur(s,0), initB = cur(s,1); int lastA = initA, lastB = initB;
     for (const char* p = sc; *p; ++p) {
@@ -49,8 +49,8 @@ template<int H> void run(const char* hn) {
       else if (*p=='L') { lastA = cur(s,0); lastB = cur(s,1); m.process_event(leave()); }
       else if (*p=='R') m.process_event(resume()); else if (*p=='P') m.process_event(plain());
     }
-    bool hist_event = (en == 0 || en == 2); bool explicit_e = (en >= 2);
-    if (en==0) m.process_event(resume()); else if (en==1) m.process_event(plain()); else if (en==2) m.process_event(resume_x()); else m.process_event(plain_x());
+    bool hist_event = (en == 0 || en == 2); bool explicit_e = (en == 2 || en == 3);     // en == 4: "if and only if the TYPE of the entering event is in the configured list"
+    if (en==0) m.process_event(resume()); else if (en==1) m.process_event(plain()); else if (en==2) m.process_event(resume_x()); else if (en==3) m.process_event(plain_x()); else m.process_event(resume_d());
     bool use_mem = (H == H_ALWAYS) || (H == H_SHALLOW && hist_event);
     int expB = use_mem ? lastB : initB;
     int gotA = cur(s,0), gotB = cur(s,1);
